@@ -5,6 +5,7 @@ package proxy
 import (
 	"context"
 	"fmt"
+	"net"
 	"sync"
 	"testing"
 	"time"
@@ -12,6 +13,8 @@ import (
 	"go.temporal.io/server/api/adminservice/v1"
 	"go.temporal.io/server/common/channel"
 	"google.golang.org/grpc"
+	"google.golang.org/grpc/credentials/insecure"
+	"google.golang.org/grpc/test/bufconn"
 
 	replicationv1 "go.temporal.io/server/api/replication/v1"
 	"go.temporal.io/server/client/history"
@@ -266,6 +269,80 @@ func govcIntraSenderSuccessorLosesRegistration() string {
 
 func TestGovcReplayIntraSenderCleanup(t *testing.T) {
 	if m := govcIntraSenderSuccessorLosesRegistration(); m != "" {
+		fmt.Println("REPLAY-VIOLATION", m)
+		return
+	}
+	fmt.Println("REPLAY-OK the old incarnation's clean-up left the successor's registration alone")
+}
+
+// ---- D8 (intra-proxy receiver): same unconditional clean-up of the active-receiver entry ----
+
+type govcIdleAdminServer struct {
+	adminservice.UnimplementedAdminServiceServer
+}
+
+func (govcIdleAdminServer) StreamWorkflowReplicationMessages(s adminservice.AdminService_StreamWorkflowReplicationMessagesServer) error {
+	<-s.Context().Done()
+	return nil
+}
+
+func govcIntraReceiverSuccessorLosesRegistration() string {
+	lis := bufconn.Listen(1 << 20)
+	srv := grpc.NewServer()
+	adminservice.RegisterAdminServiceServer(srv, govcIdleAdminServer{})
+	go func() { _ = srv.Serve(lis) }()
+	defer srv.Stop()
+	conn, err := grpc.NewClient("passthrough:///bufnet",
+		grpc.WithContextDialer(func(ctx context.Context, _ string) (net.Conn, error) { return lis.DialContext(ctx) }),
+		grpc.WithTransportCredentials(insecure.NewCredentials()))
+	if err != nil {
+		return ""
+	}
+	defer conn.Close()
+	sm := NewShardManager(nil, config.ShardCountConfig{Mode: config.ShardCountRouting}, encryption.TLSConfig{}, govcRegLoggers{})
+	src := history.ClusterShardID{ClusterID: 1, ShardID: 1}
+	tgt := history.ClusterShardID{ClusterID: 2, ShardID: 1}
+	mk := func() *intraProxyStreamReceiver {
+		return &intraProxyStreamReceiver{logger: log.NewNoopLogger(), shardManager: sm, peerNodeName: "peer", targetShardID: tgt, sourceShardID: src,
+			shutdown: channel.NewShutdownOnce()}
+	}
+	wait := func(cond func() bool) bool {
+		deadline := time.Now().Add(5 * time.Second)
+		for time.Now().Before(deadline) {
+			if cond() {
+				return true
+			}
+			time.Sleep(time.Millisecond)
+		}
+		return false
+	}
+	a, b := mk(), mk()
+	ctxA, cancelA := context.WithCancel(context.Background())
+	ctxB, cancelB := context.WithCancel(context.Background())
+	defer cancelB()
+	aDone := make(chan struct{})
+	go func() { _ = a.Run(ctxA, sm, conn); close(aDone) }()
+	if !wait(func() bool { cur, ok := sm.GetActiveReceiver(src); return ok && cur == ActiveReceiver(a) }) {
+		return ""
+	}
+	go func() { _ = b.Run(ctxB, sm, conn) }()
+	if !wait(func() bool { cur, ok := sm.GetActiveReceiver(src); return ok && cur == ActiveReceiver(b) }) {
+		return ""
+	}
+	cancelA()
+	select {
+	case <-aDone:
+	case <-time.After(5 * time.Second):
+		return ""
+	}
+	if cur, ok := sm.GetActiveReceiver(src); !ok || cur != ActiveReceiver(b) {
+		return fmt.Sprintf("the new intra-proxy receiver incarnation is live, but after the OLD incarnation's deferred UnregisterActiveReceiver ran no active receiver is registered for the source shard any more (registered=%v)", ok)
+	}
+	return ""
+}
+
+func TestGovcReplayIntraReceiverCleanup(t *testing.T) {
+	if m := govcIntraReceiverSuccessorLosesRegistration(); m != "" {
 		fmt.Println("REPLAY-VIOLATION", m)
 		return
 	}
